@@ -18,7 +18,8 @@ CASE_TIMEOUT = 120
 RULE = ('one evaluation = one case = a batch of runs; a run = a fresh container (Trajectories, or RecordsCamera/Lidar/'
         'Depth/Gnss/Wifi/Bluetooth) driven by a sequence of operations {set pair, set timestamp (dict), delete pair, delete '
         'timestamp, contains timestamp/pair, get pair/timestamp, key_pairs, len, sorted timestamps, timestamp_length, '
-        'intermediate_pose, ill-typed calls}, every answer (value or exception class) recorded. Streams: (A) all edit '
+        'intermediate_pose, sensors_ids, data_list(), inverse() (the run goes on with the inverted container), ill-typed '
+        'calls}, every answer (value or exception class) recorded. Streams: (A) all edit '
         'sequences over 2 timestamps x 2 devices up to the tier length (15 symbols incl. a cache-rebuilding query), each '
         'followed by a query battery (full battery up to length 3 quick / 4 thorough, 5 probing queries at the last '
         'length; thorough adds a 6% sample of length 5), batched by common prefix; the same for RecordsCamera; (B) the '
@@ -30,7 +31,10 @@ RULE = ('one evaluation = one case = a batch of runs; a run = a fresh container 
         'construction for Records, deepcopy-edit-and-drop) after which the run goes on with the copy - appended to every '
         'enumerated sequence up to length 3, in dedicated runs (cache filled or not before the copy, queries outside/inside '
         'the first..last range after it) and in 2% of the random operations; (T) 11..40 timestamps of mixed digit counts, the same entries built in 3 of {sorted, reversed, shuffled, odd '
-        'ones in the middle/first/last} orders plus delete-and-reinsert moves, timestamp_length/sorted/membership after each. Non-trivial = the case has a run with an edit followed by a query; distinct = distinct batch content.')
+        'ones in the middle/first/last} orders plus delete-and-reinsert moves, timestamp_length/sorted/membership after each; '
+        '(S) a few entries over 1..3 devices deleted one by one down to the empty container and partly re-created, sensors_ids '
+        '(and data_list() for Records) after every step, for Trajectories an inverse() at a random point (cache filled or not) '
+        'followed by interpolations inside/outside the first..last range. Non-trivial = the case has a run with an edit followed by a query; distinct = distinct batch content.')
 TRUSTED = ['quaternion.slerp / PoseTransform arithmetic inside compute_intermediate_pose: section variable `interp` '
            '(no contract needed: the theorems hold for every function); the harness observes the bracket of an '
            'interpolated pose exactly, by recording the arguments of kapture.core.Trajectories.compute_intermediate_pose '
@@ -57,6 +61,8 @@ KINDS = ('traj', 'camera', 'lidar', 'depth', 'gnss', 'wifi', 'bluetooth')
 # objects comparing equal.  Membership must depend on keys only, never on the value stored.
 FALSY_PID = 900001
 SHARED_PIDS = (900002, 900003)
+# Trajectories.inverse(): the inverse of the pose with id i is identified by i + INV_OFFSET (MTraj.inv_offset)
+INV_OFFSET = 1000000
 MAP_OPS = ('sp', 'st', 'dp', 'dt', 'ht', 'hp', 'gp', 'gt', 'pairs', 'len', 'bad')
 N_BAD = 18
 
@@ -132,9 +138,10 @@ def _battery(ts, kind, rot=0, full=True):
         rot %= len(ips)
         ips = ips[rot:] + ips[:rot]
         if not full:
-            return ips[:3] + [['sorted'], ['pairs']]
+            return ips[:3] + [['sorted'], ['pairs'], ['sens']]
         q += ips + [['sorted'], ['tslen']]
-    q += [['pairs'], ['len']] + [['ht', t] for t in ts] + [['gt', t] for t in ts]
+    q += [['pairs'], ['len'], ['sens']] + ([] if kind == 'traj' else [['dlist']])
+    q += [['ht', t] for t in ts] + [['gt', t] for t in ts]
     if kind == 'traj':
         q += [['hp', ts[0], 'a'], ['gp', ts[-1], 'b']]
     else:
@@ -168,11 +175,14 @@ def _exhaustive(alphabet, ts, max_len, kind, cases, tag, light_from=99, extra=No
             cases.append({'runs': runs, 'digits': [], 'tag': f'{tag}/len={ln}' + ('(sampled)' if smp else '')})
 
 
-_COPIES = {False: ['deep', 'rigs', 'shallow', 'deep-discard'], True: ['deep', 'ctor', 'shallow', 'deep-discard']}
+_COPIES = {False: ['deep', 'rigs', 'shallow', 'deep-discard', 'inverse', 'inverse-discard'],
+           True: ['deep', 'ctor', 'shallow', 'deep-discard']}
 
 
 def _copy_op(how, ts, dev='a'):
-    return ['copy', how, ts[0], dev] if how == 'deep-discard' else ['copy', how]
+    if how == 'inverse':         # Trajectories.inverse(): not a copy - the run goes on with the inverted container
+        return ['inv']
+    return ['copy', how, ts[0], dev] if how.endswith('-discard') else ['copy', how]
 
 
 def _copy_case(rng, kind):
@@ -201,7 +211,9 @@ def _copy_case(rng, kind):
                    ['ip', ts[-1] - 1, d0, big]]
         fill = rng.choice([[], [['sorted']], [['tslen']], [['ip', ts[0] + 1, d0, big]], [['ht', ts[0]]]])
         queries = (outside + [['sorted'], ['tslen']]) if kind == 'traj' else []
-        queries += [['pairs'], ['len'], ['ht', ts[0]], ['hp', ts[-1], d0], ['gp', ts[0], d0]]
+        queries += [['pairs'], ['len'], ['ht', ts[0]], ['hp', ts[-1], d0], ['gp', ts[0], d0], ['sens']]
+        if kind != 'traj':
+            queries.append(['dlist'])
         if kind != 'traj':
             fill = [f for f in fill if f[0] == 'ht']
         variants = _COPIES[kind != 'traj']
@@ -297,13 +309,19 @@ def _random_run(rng, kind, n_ops, malformed):
                 ops.append(['gp', t, d])
             elif r < 0.95:
                 ops.append(['gt', t])
-            elif r < 0.975:
+            elif r < 0.965:
                 ops.append(['len'])
+            elif r < 0.98:
+                ops.append(['sens'])
+            elif r < 0.99 and kind != 'traj':
+                ops.append(['dlist'])
             else:
                 ops.append(['pairs'])
-    ops.append(['pairs'])
+    ops += [['pairs'], ['sens']]
     if kind == 'traj':
         ops += [['sorted'], ['tslen']]
+    else:
+        ops.append(['dlist'])
     return {'kind': kind, 'ops': ops}
 
 
@@ -358,6 +376,43 @@ def _tslen_case(rng):
         ops += [['sp', odd[0], devs[-1], pid], ['tslen']]
         runs.append({'kind': 'traj', 'ops': ops})
     return {'runs': runs, 'digits': [], 'tag': 'tslen-orders'}
+
+
+def _listing_case(rng, kind):
+    """(S) sensors_ids / data_list() / inverse() between edits: a few entries over 1..3 devices, then the entries are
+    deleted one by one (pair or whole timestamp) down to the empty container and partly re-created, the listings
+    asked after every step; for Trajectories an inverse() is taken at a random point (cache filled or not)."""
+    runs = []
+    for _ in range(3):
+        devs = rng.sample(['cam0', 'cam1', 'lidar0', 'r\u00e9f'], rng.randint(1, 3))
+        base = rng.choice([0, 7, 1614362592000, -50])
+        ts = [base + 3 * i for i in range(rng.randint(1, 4))]
+        listing = [['sens']] + ([] if kind == 'traj' else [['dlist']])
+        ops, pid, entries = [], 0, []
+        for t in ts:
+            for d in rng.sample(devs, rng.randint(1, len(devs))):
+                pid += 1
+                ops.append(['sp', t, d, pid if kind == 'traj' or rng.random() < 0.8 else rng.choice(SHARED_PIDS)])
+                entries.append((t, d))
+                if rng.random() < 0.3:
+                    ops += listing
+        ops += listing
+        rng.shuffle(entries)
+        inv_at = rng.randrange(len(entries) + 1) if kind == 'traj' else -1
+        for i, (t, d) in enumerate(entries):
+            if i == inv_at:
+                ops += rng.choice([[], [['sorted']], [['tslen']]]) + [['inv']] + listing + \
+                    [['ip', t + 1, d, 10 ** 19], ['ip', ts[-1] + 4, d, 10 ** 19], ['ip', ts[0] - 4, d, 10 ** 19], ['sorted']]
+            ops.append(['dp', t, d] if rng.random() < 0.7 else ['dt', t])
+            ops += listing
+            if kind == 'traj' and rng.random() < 0.3:
+                ops.append(rng.choice([['sorted'], ['ip', t + 1, d, 10 ** 19]]))
+        for t, d in entries[:2]:
+            pid += 1
+            ops += [['sp', t, d, pid]] + listing
+        ops += [['pairs'], ['len']]
+        runs.append({'kind': kind, 'ops': ops})
+    return {'runs': runs, 'digits': [], 'tag': 'listings-' + ('traj' if kind == 'traj' else 'rec')}
 
 
 def _digit_samples(rng, n):
@@ -421,6 +476,9 @@ def gen_cases(rng, tier):
     # (T) the same >10 timestamps of mixed digit counts reached by several edit orders
     for i in range(80 if quick else 800):
         cases.append(_tslen_case(rng))
+    # (S) sensors_ids / data_list() / inverse() between edits
+    for i in range(60 if quick else 600):
+        cases.append(_listing_case(rng, 'traj' if i % 2 else KINDS[1 + (i // 2) % 6]))
     # digit counter samples
     cases.append({'runs': [], 'digits': _digit_samples(rng, 400 if quick else 4000), 'tag': 'digits'})
     return cases
@@ -470,6 +528,14 @@ class PlainMap:
             return ['int', len({t for t, _ in m})]
         if k == 'sorted':
             return ['list', sorted({t for t, _ in m})]
+        if k == 'sens':
+            return ['strs', sorted({d for _, d in m})]
+        if k == 'dlist':
+            return ['ids', sorted(m.values())]
+        if k == 'inv':          # same keys, every pose replaced by its inverse
+            for key in m:
+                m[key] += INV_OFFSET
+            return ['none']
         if k == 'tslen':
             return ['same-as-fresh']
         if k == 'ip':
@@ -724,11 +790,45 @@ def _run_ops(run, rec):
                     for t in list(dict.keys(c2)):
                         del c2[t]
                     c2[op[2], op[3]] = good
+                elif how == 'inverse-discard':  # an inverted container is built, edited and dropped
+                    c2 = c.inverse()
+                    for t in list(dict.keys(c2)):
+                        del c2[t]
+                    c2[op[2], op[3]] = good
                 else:
                     raise ValueError('unknown op copy/' + how)
                 alive.append(c)
                 adopt(c)
                 res = ['none']
+            elif k == 'inv':
+                c2 = c.inverse()
+                if type(c2) is not type(c) or c2 is c:
+                    res = ['unknown', 'inverse() did not return a new Trajectories']
+                else:
+                    # recognise every pose of the new container by VALUE: it must be what PoseTransform.inverse()
+                    # gives for one of the known poses (deterministic, payload values are unique per id)
+                    known = [(pid, _pose_arrays(o.inverse())) for pid, o in list(objs.items())]
+                    import numpy as np
+                    for t2, inner in dict.items(c2):
+                        for d2, v in inner.items():
+                            arr = _pose_arrays(v)
+                            for pid, inv_arr in known:
+                                if np.array_equal(arr, inv_arr, equal_nan=True):
+                                    alive.append(v)
+                                    objs[pid + INV_OFFSET] = v
+                                    by_identity[id(v)] = pid + INV_OFFSET
+                                    hist.setdefault(d2, []).append((int(t2), pid + INV_OFFSET))
+                                    break
+                    alive.append(c)
+                    c = c2
+                    res = ['none']
+            elif k == 'sens':
+                v = c.sensors_ids
+                ok = isinstance(v, (set, frozenset)) and all(isinstance(x, str) for x in v)
+                res = ['strs', sorted(v)] if ok else ['unknown', 'sensors_ids']
+            elif k == 'dlist':
+                ids = [ident(v) for v in c.data_list()]
+                res = ['ids', sorted(ids)] if all(x is not None for x in ids) else ['unknown', 'data_list']
             elif k == 'sp':
                 o = mk(op[3])
                 hist.setdefault(op[2], []).append((op[1], op[3]))
@@ -805,7 +905,7 @@ def _run_ops(run, rec):
             for items in (sorted(plain.m.items()), sorted(plain.m.items(), reverse=True)):
                 f = _new_container(kind)
                 for (t, d), pid in items:
-                    f[t, d] = objs[pid]
+                    f[t, d] = objs.get(pid, good)      # only the timestamps matter here
                 try:
                     answers.append(['int', int(f.timestamp_length())])
                 except Exception as e:
@@ -829,7 +929,8 @@ def run_impl(case, ctx):
 _NAMES = {'sp': 'set pair', 'st': 'set timestamp', 'dp': 'delete pair', 'dt': 'delete timestamp',
           'ht': 'timestamp membership', 'hp': 'pair membership', 'gp': 'get pair', 'gt': 'get timestamp',
           'pairs': 'stored entries', 'len': 'number of timestamps', 'sorted': 'sorted timestamp list',
-          'tslen': 'timestamp_length', 'ip': 'intermediate_pose', 'bad': 'ill-typed call', 'copy': 'copy'}
+          'tslen': 'timestamp_length', 'ip': 'intermediate_pose', 'bad': 'ill-typed call', 'copy': 'copy',
+          'inv': 'inverse()', 'sens': 'sensors_ids', 'dlist': 'data_list()'}
 
 
 def _judge_run(run, robs):
@@ -919,7 +1020,8 @@ def _c_op(op, nm):
     raise ValueError(k)
 
 
-_C_NULLARY = {'pairs': 'PR', 'len': 'LN', 'bad': 'BD', 'sorted': 'SO', 'tslen': 'TL'}
+_C_NULLARY = {'pairs': 'PR', 'len': 'LN', 'bad': 'BD', 'sorted': 'SO', 'tslen': 'TL', 'inv': 'IV', 'sens': 'SI',
+              'dlist': 'DL'}
 _ERR = {'KeyError': 'EK', 'TypeError': 'ET', 'IndexError': 'EI'}
 
 
@@ -942,6 +1044,10 @@ def _c_out(o, nm):
         return f'OI {z(o[1])}'
     if k == 'list':
         return f'OL {kv.clist(z(x) for x in o[1])}'
+    if k == 'strs':
+        return f'OS {kv.clist(s(x) for x in o[1])}'
+    if k == 'ids':
+        return f'OZ {kv.clist(z(x) for x in o[1])}'
     if k == 'err':
         return _ERR.get(o[1], 'EO')
     return 'EO'          # unknown value / an ill-typed call that returned
@@ -994,7 +1100,12 @@ def classify(case, obs):
                 if op[0] == 'ip' and o[0] in kinds:
                     kinds[o[0]] += 1
         flavour = '+interpolated' if kinds['mix'] else ''
+        if any(op[0] == 'inv' for run in case['runs'] for op in run['ops']):
+            flavour += '+inverse'
         return f'{tag}/ops{size}{flavour}'
+    if tag.startswith('copies-traj') or tag.startswith('listings-traj'):
+        n_inv = sum(1 for run in case['runs'] for op in run['ops'] if op[0] == 'inv')
+        return tag + ('+inverse' if n_inv else '')
     return tag
 
 
@@ -1035,7 +1146,9 @@ LEVEL_TEXT = ('Theorems in coq/Props/C07.v hold for every operation sequence of 
               'and of the Records machine equal those of a plain map (set-valued answers as sets), the content relation is '
               'preserved, answers depend only on the content (two histories with the same content answer every query '
               'alike), and intermediate_pose returns the stored pose, else the interpolation between the nearest earlier and '
-              'later pose of that device when both are within the interval, else None - never an exception. The executable '
+              'later pose of that device when both are within the interval, else None - never an exception; inverse() holds the '
+              'same keys with inverted poses and is again such a container; sensors_ids / data_list() are functions of the entries; '
+              'an edit leaves every other entry alone and a failing call changes nothing (cache included). The executable '
               'model is tied to the code by replaying exhaustive small-scope and long random operation sequences on the real '
               'classes and comparing every answer, including exception classes, inside Coq.')
 LEVEL_NOTE = ('Trusted: Coq kernel + vm_compute, harness encoders, exact observation of interpolation brackets by a recorder placed on compute_intermediate_pose, '
